@@ -442,10 +442,33 @@ def run_segment(case, seg_steps, model, root, magick):
                         cnt("probe:npy-verified")
                 elif k == "bytes":
                     arr = gen_bytes_array(op)
-                    enc = arr[..., ::-1] if arr.ndim == 3 and arr.shape[-1] == 3 else arr
-                    okk, buf = cv2.imencode(op["ext"], enc)
-                    with _quiet():
-                        got = darsia.imread_from_bytes(buf.tobytes(), **({"color_space": "RGB"} if arr.ndim == 3 and arr.shape[-1] == 3 else {}))
+                    if op.get("encoder", "cv2") == "cv2":
+                        enc = arr[..., ::-1] if arr.ndim == 3 and arr.shape[-1] == 3 else arr
+                        okk, buf = cv2.imencode(op["ext"], enc)
+                        data = buf.tobytes()
+                    else:
+                        # a lossless file produced by another program (Pillow), possibly with a compression scheme
+                        # OpenCV cannot decode: then the call may raise, but must not return wrong data
+                        from PIL import Image as _PI
+                        bio = io.BytesIO()
+                        _PI.fromarray(arr[..., 0] if arr.ndim == 3 and arr.shape[-1] == 1 else arr).save(
+                            bio, format="TIFF", compression=op["encoder"][4:])
+                        data = bio.getvalue()
+                    real_cv2 = imread_mod.cv2
+                    if op.get("imdecode_fails"):
+                        class _NoDecode:
+                            def __getattr__(self, n):
+                                return getattr(real_cv2, n)
+
+                            def imdecode(self, *a, **kw):
+                                cnt("fault:imdecode-returns-none")
+                                return None
+                        imread_mod.cv2 = _NoDecode()
+                    try:
+                        with _quiet():
+                            got = darsia.imread_from_bytes(data, **({"color_space": "RGB"} if arr.ndim == 3 and arr.shape[-1] == 3 else {}))
+                    finally:
+                        imread_mod.cv2 = real_cv2
                     want_cls = "OpticalImage" if (arr.ndim == 3 and arr.shape[-1] == 3) else "ScalarImage"
                     want = arr[..., 0] if (arr.ndim == 3 and arr.shape[-1] == 1) else arr
                     if type(got).__name__ != want_cls:
@@ -455,6 +478,14 @@ def run_segment(case, seg_steps, model, root, magick):
                         viol.append({"oracle": "C18.B", "culprit": "decoded-array-differs", "step": idx, "detail": {"op": op}})
                     else:
                         cnt("probe:bytes-verified")
+                elif k == "optical_kw":
+                    # another user of the process reads an optical file with non-default keyword arguments
+                    spec = case["images"][op["img"]]
+                    img = gen_image(spec)
+                    with _quiet():
+                        img.write(path)
+                        darsia.imread(path, **op["kwargs"])
+                    cnt("probe:foreign-imread-with-keywords")
                 elif k == "optical":
                     spec = case["images"][op["img"]]
                     img = gen_image(spec)
@@ -700,8 +731,8 @@ class C18Engine(Engine):
         n = cfg.randint(3, 16 if tier == "thorough" else 12)
         saved, csaved = [], []
         for _ in range(n):
-            kind = wl.choices(["save", "read", "bytes", "optical", "corr_save", "corr_read", "npy"],
-                              [6, 7, 2, 2, 3 if corrs else 0, 4 if corrs else 0, 1])[0]
+            kind = wl.choices(["save", "read", "bytes", "optical", "corr_save", "corr_read", "npy", "optical_kw"],
+                              [6, 7, 2, 2, 3 if corrs else 0, 4 if corrs else 0, 1, 1])[0]
             if kind == "save":
                 p = wl.choice(paths)
                 prog.append({"op": "save", "img": wl.choice(sorted(images)), "path": p, "pathlib": wl.choice([None, None, True])})
@@ -715,8 +746,18 @@ class C18Engine(Engine):
                 chan = wl.choice([None, 1, 3])
                 shape = [wl.randint(1, 6), wl.randint(1, 6)] + ([chan] if chan else [])
                 dt = wl.choice(["uint8", "uint16"])
-                prog.append({"op": "bytes", "shape": shape, "dtype": dt, "ext": wl.choice([".png", ".tiff", ".tif"]),
-                             "id": wl.randint(0, 9999)})
+                op = {"op": "bytes", "shape": shape, "dtype": dt, "ext": wl.choice([".png", ".tiff", ".tif"]), "id": wl.randint(0, 9999)}
+                if wl.random() < 0.35 and not (dt == "uint16" and chan == 3):
+                    op["encoder"] = "pil:" + wl.choice(["raw", "tiff_lzw", "tiff_adobe_deflate", "tiff_lzma", "zstd", "packbits"])
+                if wl.random() < 0.1:
+                    op["imdecode_fails"] = True
+                prog.append(op)
+            elif kind == "optical_kw":
+                name = f"opt{len(images)}"
+                images[name] = {"cls": "OpticalImage", "shape": [wl.randint(2, 5), wl.randint(2, 5)], "chan": [3], "dtype": "uint8",
+                                "color_space": "RGB", "time": "none", "t0": 0, "dims": [1.0, 2.0], "id": wl.randint(0, 9999)}
+                prog.append({"op": "optical_kw", "img": name, "path": "foreign.png",
+                             "kwargs": wl.choice([{"color_space": "BGR"}, {"name": "foreign", "width": 3.0}, {"color_space": "BGR", "name": "x"}])})
             elif kind == "optical":
                 name = f"opt{len(images)}"
                 dt = wl.choice(["uint8", "uint8", "uint16"])
